@@ -271,6 +271,23 @@ pub fn suite_c18(ctx: &mut Ctx) {
             ctx.sink.line(&line);
             *ctx.sink.per_op.entry(format!("{}.poly{}", ty.name, deg)).or_insert(0) += 1;
         }
+        // zero times NaR: x = 0 with NaR as one coefficient (every position), x = NaR with all-zero non-constant
+        // coefficients -- NaR is absorbing, whatever the other factor is
+        for &deg in DEGS.iter() {
+            let nc = ncoef(deg);
+            let one = gen::from_scale(ty.n, ty.es, 0, 0);
+            for pos in 0..nc {
+                let cs: Vec<Vec<u64>> = (0..nc).map(|i| vec![if i == pos { gen::nar(ty.n) } else { one }]).collect();
+                let line = poly_event(ty.name, 0, deg, 0, &cs);
+                ctx.sink.line(&line);
+                let cs0: Vec<Vec<u64>> = (0..nc).map(|i| vec![if i == pos { gen::nar(ty.n) } else { 0 }]).collect();
+                let line = poly_event(ty.name, 0, deg, 0, &cs0);
+                ctx.sink.line(&line);
+            }
+            let cs: Vec<Vec<u64>> = (0..nc).map(|i| vec![if i == nc - 1 { one } else { 0 }]).collect();
+            let line = poly_event(ty.name, gen::nar(ty.n), deg, 0, &cs);
+            ctx.sink.line(&line);
+        }
         // well-conditioned small cases where a wrong index / wrong power is visible in the value:
         // x = 2, c_i = distinct small integers
         for &deg in DEGS.iter() {
